@@ -400,7 +400,7 @@ def diff_single_outputs(a, b, path="/cells/*/outputs/*", config=None):
         b_conj = copy.deepcopy(b)
         b.data = tmp_data
         # Only diff outputs without data:
-        dd_conj = diff(a_conj, b_conj)
+        dd_conj = diff(a_conj, b_conj, path=path, config=config)
         if dd_conj:
             for e in dd_conj:
                 di.append(e)
